@@ -6,7 +6,7 @@ CDB = "compile flags taken from ninja -t compdb of /repo/_build (or a throw-away
 
 PROPS = {
     "C12": {
-        "rules": [rules_dd.rule_F3, rules_dd.rule_pairing],
+        "rules": [rules_dd.rule_F3, rules_dd.rule_pairing, rules_dd.rule_F11c],
         "level": "other",
         "explanation": "Decides structural necessary conditions of the directory being a faithful persistent map: "
                        "(F3) on every non-failing path of every function that stores to dd_t.{tag,ref,offset,length} the last "
@@ -22,6 +22,26 @@ PROPS = {
         "level_note": "Trusted: clang front end/CFG, compile flags of the build, failure-value convention. Decides the structural clause, not search/count behaviour.",
         "technique": "custom typestate dataflow (persist-after-mutate, must-call-on-success) over clang CFGs",
     },
+}
+
+PROPS["C17"] = {
+    "rules": [rules_dd.rule_F11a, rules_dd.rule_F11b, rules_dd.rule_F11c],
+    "level": "other",
+    "explanation": "Decides the structural core of 'an adding session writes only beyond existing objects until the flush, and the flush "
+                   "never exposes a dangling link': (F11a) in hfiledd.c's DD mutators every HPseek into the DD area is reachable only on "
+                   "paths where file_rec->cache == 0; (F11b) file space has a single source: f_end_off is written only by the designated "
+                   "allocator/loader functions and every offset given to HTPupdate comes from HPgetdiskblock, an existing descriptor or "
+                   "a constant; (F11c) every DD-block creator writes the 6-byte header and the NIL list contiguously on every non-failing "
+                   "path, before any predecessor's nextoffset is set. Not decided: the per-prefix file images themselves (an enumeration of "
+                   "executions) and the metadata-replacing interfaces (SD/GR).",
+    "rule_text": "instances = HPseek sites in DD mutators, stores to f_end_off, HTPupdate call sites, DD-block creator functions "
+                 "(all re-discovered each run); non-trivial = needed path-sensitive typestate or reaching-definition provenance",
+    "trusted": [CLANG, CDB, "HP_write/HPseek are the only file-position primitives of the DD layer"],
+    "assumptions": ["file_rec->cache is not modified inside a DD mutator (checked: a store makes the instance unrecognised)"],
+    "level_text": "All-paths structural check of write placement and of new-DD-block completeness before linking; necessary conditions of "
+                  "crash safety for adding sessions, decided for every path and both cache modes rather than for sampled crash points.",
+    "level_note": "Trusted: clang front end/CFG, build flags. Decides placement/ordering structure, not the byte images at each crash point.",
+    "technique": "typestate dataflow + reaching-definition provenance + who-may-write over clang CFGs",
 }
 
 NOT_APPLICABLE = {
